@@ -31,10 +31,23 @@ func convertedFilesInOrder(r *core.Run) {
 		r.Fatal("anchor: j5convert.ConvertJ5File not found")
 		return
 	}
+	// the list may be built by a helper the function returns the result of (`return root.descriptors(), nil`)
+	ast.Inspect(fd.Body, func(n ast.Node) bool {
+		if rs, ok := n.(*ast.ReturnStmt); ok && len(rs.Results) == 2 {
+			if c, ok := core.Unparen(rs.Results[0]).(*ast.CallExpr); ok {
+				if fn := core.CalleeFunc(info, c); fn != nil && fn.Pkg() == pk.Types {
+					if hd := core.DeclOf(pk, fn.Origin()); hd != nil && hd.Body != nil {
+						fd = hd
+					}
+				}
+			}
+		}
+		return true
+	})
 	// the returned descriptor list
 	var resObj types.Object
 	ast.Inspect(fd.Body, func(n ast.Node) bool {
-		if rs, ok := n.(*ast.ReturnStmt); ok && len(rs.Results) == 2 {
+		if rs, ok := n.(*ast.ReturnStmt); ok && len(rs.Results) >= 1 {
 			if id, ok := core.Unparen(rs.Results[0]).(*ast.Ident); ok && id.Name != "nil" {
 				if _, isSlice := info.TypeOf(id).Underlying().(*types.Slice); isSlice {
 					resObj = info.ObjectOf(id)
